@@ -1034,9 +1034,13 @@ def run(ctx):
                 splits = [sp for n_, sp in enumerate(splits) if n_ in (0, 1, len(splits) - 1) or sp == natural_split]
             for sp in splits:
                 run_case(ctx, drv, cfg, sp, True, scratch)
-                if sp == natural_split or ctx.thorough():
+                # natural stream: every split in the thorough tier; one split per configuration in the quick tier
+                # (every second one of the forced configurations, which all run regardless of the time guard)
+                if ctx.thorough() or (sp == natural_split and (force is None or i % 2 == 0)):
                     run_case(ctx, drv, cfg, sp, False, scratch)
-            if time.time() - t0 > budget:
+            # the time guard only limits the RANDOM configurations: the forced ones (fixed input classes, among them the
+            # ones that exposed earlier defects and seeded changes) run on every machine load
+            if i + 1 >= len(FORCED) and time.time() - t0 > budget:
                 ctx.dist["stopped_on_time_budget_after_cfgs"] = i + 1
                 break
         ctx.extra["tolerances"] = {"pinned": TOL_PINNED, "natural": TOL_NATURAL, "natural_conditioning_floor": NATURAL_COND}
